@@ -103,21 +103,25 @@ class SignProver:
         list of (node, rule qual | None, origins, note)"""
         out, seen = [], set()
 
-        def walk(n):
-            if n in seen:
+        def walk(n, via=None):
+            if (n, via and via.qual) in seen:
                 return
-            seen.add(n)
+            seen.add((n, via and via.qual))
             if self.sign(n) is not None:
                 return
             node = self.dag.nodes.get(n)
             if node is None:
-                out.append((n, None, frozenset(), self.note.get(n, "")))
+                if n in self.neg_inputs and via is not None:
+                    # positive evidence: a possibly negative input enters `via` and is not clamped afterwards
+                    out.append((n, via.qual, frozenset({("possibly negative input", via.node.lineno, via.mod.rel, n)}), self.note.get(n, "")))
+                else:
+                    out.append((n, None, frozenset(), self.note.get(n, "")))
                 return
             if node.kind in ("grp_agg", "pid_agg"):
-                walk(node.spec.get("source_col"))
+                walk(node.spec.get("source_col"), via)
                 return
             if node.kind == "time":
-                walk(node.args[0])
+                walk(node.args[0], via)
                 return
             if node.kind != "rule":
                 out.append((n, None, frozenset(), "unknown node kind"))
@@ -129,7 +133,7 @@ class SignProver:
             if own or not lost or n in self.note:
                 out.append((n, r.qual, own, self.note.get(n, "")))
             for a in lost:
-                walk(a)
+                walk(a, r)
 
         walk(name)
         return out
